@@ -54,6 +54,57 @@ static int dec13(const BLOCK_CIPHER_KEY *k, const uint8_t *iv, const uint8_t *se
 	return r == 1;
 }
 
+/* ---- concurrent use on disjoint objects: T threads, each with its own keys, sequence numbers, buffers and
+ * (per-thread scripted) entropy, protect and unprotect their own records at the same time.  The reference is
+ * the same work done by one thread after the other.  Nothing is shared between the workers, so every byte
+ * must come out as in the sequential run. ---- */
+#include <pthread.h>
+typedef struct { int proto, id, nrec, rounds, bad; uint64_t seed, digest; pthread_barrier_t *bar; } par_t;
+static uint64_t par_next(uint64_t *s) { *s ^= *s << 13; *s ^= *s >> 7; *s ^= *s << 17; return *s; }
+static void *par_worker(void *arg) {
+	par_t *w = arg; uint64_t st = w->seed * 0x9E3779B97F4A7C15ULL + (uint64_t)(w->id + 1) * 0xD1B54A32D192ED03ULL; int r, j; size_t i;
+	uint8_t mk[32], ek[16], iv[12], seq[8];
+	SM3_HMAC_CTX h; SM4_KEY k, dk; BLOCK_CIPHER_KEY bk;
+	for (i = 0; i < 32; i++) mk[i] = (uint8_t)par_next(&st);
+	for (i = 0; i < 16; i++) ek[i] = (uint8_t)par_next(&st);
+	for (i = 0; i < 12; i++) iv[i] = (uint8_t)par_next(&st);
+	memset(seq, 0, 8);
+	sm3_hmac_init(&h, mk, 32); sm4_set_encrypt_key(&k, ek); sm4_set_decrypt_key(&dk, ek);
+	block_cipher_set_encrypt_key(&bk, BLOCK_CIPHER_sm4(), ek);
+	w->digest = 1469598103934665603ULL; w->bad = 0;
+	for (r = 0; r < w->rounds; r++) {
+		if (w->bar) pthread_barrier_wait(w->bar);
+		for (j = 0; j < w->nrec; j++) {
+			uint64_t x = par_next(&st); size_t n = (x % 7 == 0) ? (size_t)(x >> 8) % 16385 : (size_t)(x >> 8) % 700, pad = w->proto == 13 ? (size_t)(x >> 40) % 40 : 0, el = SENT, ol = SENT;
+			uint8_t *rec = xalloc(5 + n), *enc = xalloc(5 + n + 1 + pad + 16 + 80), *out = xalloc(5 + n + pad + 80); int ok;
+			rec[0] = (uint8_t)(20 + (x >> 4) % 4); rec[1] = 3; rec[2] = 3; rec[3] = (uint8_t)(n >> 8); rec[4] = (uint8_t)n;
+			for (i = 0; i < n; i++) rec[5 + i] = (uint8_t)(x >> (i % 7 * 8)) ^ (uint8_t)i;
+			ent_seed(w->seed * 1000003ULL + (uint64_t)w->id * 7919 + (uint64_t)(r * w->nrec + j), -1);
+			if (w->proto == 13) ok = tls13_record_encrypt(&bk, iv, seq, rec, 5 + n, pad, enc, &el) == 1 && tls13_record_decrypt(&bk, iv, seq, enc, el, out, &ol) == 1;
+			else ok = tls_record_encrypt(&h, &k, seq, rec, 5 + n, enc, &el) == 1 && tls_record_decrypt(&h, &dk, seq, enc, el, out, &ol) == 1;
+			if (!ok || ol != 5 + n || memcmp(out, rec, 5 + n)) w->bad++;
+			else for (i = 0; i < el; i++) { w->digest ^= enc[i]; w->digest *= 1099511628211ULL; }
+			tls_seq_num_incr(seq);
+			free(rec); free(enc); free(out);
+		}
+	}
+	return NULL;
+}
+static void par_run(int proto, int T, uint64_t seed, int nrec, int rounds) {
+	par_t ref[8], con[8]; pthread_t th[8]; pthread_barrier_t bar; int t, diff = -1, bad = 0, refbad = 0;
+	if (T < 1 || T > 8) { printf("ERR threads"); return; }
+	for (t = 0; t < T; t++) { par_t w = { proto, t, nrec, rounds, 0, seed, 0, NULL }; ref[t] = w; par_worker(&ref[t]); refbad += ref[t].bad; }
+	pthread_barrier_init(&bar, NULL, (unsigned)T);
+	for (t = 0; t < T; t++) { par_t w = { proto, t, nrec, rounds, 0, seed, 0, &bar }; con[t] = w; pthread_create(&th[t], NULL, par_worker, &con[t]); }
+	for (t = 0; t < T; t++) pthread_join(th[t], NULL);
+	pthread_barrier_destroy(&bar);
+	for (t = 0; t < T; t++) { bad += con[t].bad; if (diff < 0 && con[t].digest != ref[t].digest) diff = t; }
+	if (refbad) printf("SEQUENTIAL-ROUNDTRIP-FAILS %d", refbad);
+	else if (bad) printf("CONCURRENT-ROUNDTRIP-FAILS %d of %d", bad, T * nrec * rounds);
+	else if (diff >= 0) printf("CONCURRENT-CIPHERTEXT-DIFFERS thread=%d", diff);
+	else printf("SAME %d", T * nrec * rounds);
+}
+
 static void handle(size_t nw, char **w) {
 	if (!strcmp(w[0], "cbcenc") && nw == 7) {
 		buf_t mk = hex2buf(w[1]), ek = hex2buf(w[2]), seq = hex2buf(w[3]), hdr = hex2buf(w[4]), pl = hex2buf(w[5]), iv;
@@ -225,6 +276,7 @@ static void handle(size_t nw, char **w) {
 		}
 		free(enc); free(key.p); free(iv.p); free(seq.p); free(rc.p);
 	}
+	else if (!strcmp(w[0], "par") && nw == 6) par_run(atoi(w[1]), atoi(w[2]), strtoull(w[3], NULL, 10), atoi(w[4]), atoi(w[5]));
 	else printf("ERR bad-op");
 }
 
